@@ -120,6 +120,9 @@ Eval vm_compute in (length cases, length (filter (fun c => negb (ok c)) cases)).
     # the long-time table computed for another borehole radius than the simulated one (the correction is then not the identity)
     gc += [{"nx": 2, "ny": 2, "months": 12, "H": 100.0, "heights": [60.0, 97.5, 135.0], "H_eval": h, "loads": {"kind": "balanced", "scale": 5000.0, "seed": 1},
             "pipe": "SINGLEUTUBE", "rb": rs, "rb_table": rt} for h, rs, rt in ((97.5, 0.06, 0.075), (110.0, 0.09, 0.07))][: (1 if quick else 2)]
+    # ... and an object whose g-function was already requested once while its borehole had yet another radius
+    gc += [{"nx": 2, "ny": 2, "months": 12, "H": 100.0, "heights": [60.0, 97.5, 135.0], "H_eval": 97.5, "loads": {"kind": "balanced", "scale": 5000.0, "seed": 1},
+            "pipe": "SINGLEUTUBE", "rb": 0.065, "rb_table": 0.075, "first_rb": 0.09}]
     from concurrent.futures import ThreadPoolExecutor
     with ThreadPoolExecutor(max_workers=NPROC) as ex:
         r3 = list(ex.map(lambda c: run_impl("gf_drv.py", {"mode": "ghe", "cases": [c]}, timeout=900), gc))
@@ -151,7 +154,8 @@ Eval vm_compute in (length cases, length (filter (fun c => negb (ok c)) cases)).
         if c["H_eval"] in o["stored_heights"]:
             pass
     # ---------------- analytical finite-line-source anchor (validated by computation only)
-    fl = [{"nx": 1, "ny": 1, "B": 5.0, "H": 100.0, "D": 2.0, "rb": 0.075, "stride": 4}, {"nx": 2, "ny": 3, "B": 5.0, "H": 150.0, "D": 4.0, "rb": 0.06, "stride": 6}]
+    fl = [{"nx": 1, "ny": 1, "B": 5.0, "H": 100.0, "D": 2.0, "rb": 0.075, "stride": 4}, {"nx": 2, "ny": 3, "B": 5.0, "H": 150.0, "D": 4.0, "rb": 0.06, "stride": 6},
+          {"nx": 1, "ny": 2, "B": 5.0, "H": 30.0, "D": 2.0, "rb": 0.075, "stride": 4}]          # a short borehole: H / r_b = 400
     if not quick:
         fl += [{"nx": 3, "ny": 3, "B": 6.0, "H": 80.0, "D": 1.0, "rb": 0.1, "stride": 5}, {"nx": 1, "ny": 1, "B": 5.0, "H": 300.0, "D": 3.0, "rb": 0.065, "stride": 3}]
     with ThreadPoolExecutor(max_workers=NPROC) as ex:
@@ -170,6 +174,12 @@ Eval vm_compute in (length cases, length (filter (fun c => negb (ok c)) cases)).
         nontrivial += 1
         if dev > lim:
             chk.violation("fls", c, {"max_abs_deviation": dev}, f"uniform-heat-rate long-time curve equals the analytical finite-line-source superposition within {lim}")
+        if "uhtr_family" in o:
+            dev2 = max(abs(a - b) for a, b in zip(o["uhtr_family"], o["fls"]))
+            nontrivial += 1
+            if dev2 > lim:
+                chk.violation("fls", c, {"max_abs_deviation": dev2, "first_values": o["uhtr_family"][:3], "finite_line_source": o["fls"][:3]},
+                              f"the stored long-time family (calc_g_func_for_multiple_lengths, uniform heat rate) equals the finite-line-source superposition within {lim}")
         if "mift" in o:
             rel = max(abs(a / b - 1) for a, b in zip(o["mift"], o["fls"]))
             if rel > 0.2:
